@@ -69,6 +69,7 @@ def sched_tick_closure(src):
 def src_classes(src):
     """class predicates of known findings evaluated on source text (for shipped / mutated sources)"""
     c = set()
+    if re.search(r"%\s*\(?\s*\d*\.\d*[1-9]|\d*\.\d*[1-9]\d*\s*\)?\s*%", src): c.add("F62")   # x % y with a non-integer literal operand
     if re.search(r"\.\.\s*\}", src): c.add("F17")            # incomplete record literal {a=1, ..}
     # F46: a comparison whose operand is a tuple / record projection (x.0 > y, r.attack <= r.decay)
     if re.search(r"\w\.\w+\s*(<=|>=|==|!=|<|>)\s|\s(<=|>=|==|!=|<|>)\s*\w+\.[A-Za-z0-9_]+", src): c.add("F46")
